@@ -1,3 +1,4 @@
+import Heathcliff.Proofs.C01E
 import Heathcliff.Proofs.C01Q
 import Heathcliff.Proofs.C01P
 import Heathcliff.Proofs.C01O
@@ -270,5 +271,45 @@ theorem scalingOK_example : type_of% @HC.gz_ex_scalingOK := @HC.gz_ex_scalingOK
 /-- … and of all hypotheses of `gen_multiply_add_plain_spec` at once: buffer [5, 6 | 7, 8], plaintext (16, 3) ↦ [39, 0 | 40, 21] -/
 theorem gen_multiply_add_plain_example : type_of% @HC.gz_ex_multiply_add_plain := @HC.gz_ex_multiply_add_plain
 
+
+/-! ### ENCRYPTION in the model (Heathcliff/Model/Encrypt.lean: `encryptZeroAsym`, `encryptZeroSym`, the level dispatch, `bfvEncrypt` /
+    `bgvEncrypt` / `ckksEncrypt`, `expandSeed`); compared bit for bit with the code on `enc_op` lines.  Statements, hypothesis bundles
+    (`PkRel`, `FreshEncOK`, `rnsOfInt`, `padPlain`) : Heathcliff/Proofs/C01E.lean; concrete satisfiable instance: Proofs/C01EW.lean -/
+
+/-- E1 (public key, coefficient form): polynomial k of `encryptZeroAsym` is (intt(pk_k) ⋆ u + e_k) mod q_i in every RNS component -/
+theorem encryptZeroAsym_coeff : type_of% @HC.encryptZeroAsym_coeff := @HC.encryptZeroAsym_coeff
+
+/-- E1' (secret key, coefficient form, with / without saved seed): c0 = −(c1 ⋆ s + e) mod q_i, c1 = coefficient form of the mask -/
+theorem encryptZeroSym_coeff : type_of% @HC.encryptZeroSym_coeff := @HC.encryptZeroSym_coeff
+
+/-- the ring identity `phase_fresh_pk` on integer coefficient functions, pulled back from ℤ[X]/(X^n+1) -/
+theorem enc_pk_identity : type_of% @HC.c01e_pk_identity := @HC.c01e_pk_identity
+
+/-- (a) the exact phase (`Spec.phase`, the quantity the model's decryption computes: `dotProduct_size2_coeff`, `bfvDecrypt_size2_eq_spec`)
+    of the model's fresh public-key ciphertext is −e·u + e0 + e1·s modulo Q -/
+theorem encryptZeroAsym_phase : type_of% @HC.encryptZeroAsym_phase := @HC.encryptZeroAsym_phase
+
+/-- (a') … of the fresh secret-key ciphertext: −e modulo Q (both seed variants) -/
+theorem encryptZeroSym_phase : type_of% @HC.encryptZeroSym_phase := @HC.encryptZeroSym_phase
+
+/-- `multiplyAddPlain` on a whole canonical polynomial adds Δ(m_i) modulo q_j -/
+theorem multiplyAddPlain_spec : type_of% @HC.multiplyAddPlain_spec := @HC.multiplyAddPlain_spec
+
+/-- a phase ≡ Δ(m) + v (mod Q) with ‖v‖ ≤ B under the margin `FreshEncOK l B` is decrypted by the model to the padded plaintext -/
+theorem decrypt_of_phase : type_of% @HC.c01e_decrypt_of_phase := @HC.c01e_decrypt_of_phase
+
+/-- (b) END TO END, BFV, PUBLIC KEY: `bfvDecrypt l sk (bfvEncrypt … m) = .ok (trimPlain (m padded to N))` for ternary u, s, errors ≤ 21,
+    a public key that is an encryption of zero with error ≤ 21, plaintext coefficients < t, margin `FreshEncOK l (21(2N+1))` -/
+theorem bfv_encrypt_decrypt_pk : type_of% @HC.bfv_encrypt_decrypt_pk := @HC.bfv_encrypt_decrypt_pk
+
+/-- (b') END TO END, BFV, SECRET KEY and SEED-COMPRESSED (expanded view) -/
+theorem bfv_encrypt_decrypt_sk : type_of% @HC.bfv_encrypt_decrypt_sk := @HC.bfv_encrypt_decrypt_sk
+
+/-- `expand_seed` of the seed-compressed object (c0, seed) is (c0, c1) when the seed expands to c1 (Rng model) -/
+theorem expandSeed_toSeeded : type_of% @HC.expandSeed_toSeeded := @HC.expandSeed_toSeeded
+
+/-- the modulus switch inside public-key encryption (special-prime / lower-level path) IS `modSwitchScaleNext` of the previous level
+    (BFV, CKKS): C05's `modSwitchScaleNext_bfv_spec` / `_ckks_spec` and their phase consequences apply to it -/
+theorem encDivideQLast_eq_modSwitch : type_of% @HC.encDivideQLast_eq_modSwitch := @HC.encDivideQLast_eq_modSwitch
 
 end HC.C01
